@@ -19,6 +19,20 @@ CHECKS = {
              "shapes/alphabets; larger grids by recorded traces.",
         technique="TLA+ transcription of the C watershed + TLC exhaustive invariants + replay and H1 trace validation",
         ref="§4 C04", engine="tlc"),
+    "C20": dict(
+        text="Native half: the TLA+ transcription of specpart.c carries a ghost bounds check on every array/FIFO access "
+             "(BoundsOK), the neighbour table is shown to lie inside the buffers and to equal circular 8-adjacency (TableOK), "
+             "and termination is checked as a liveness property under weak fairness; TLC explores every shape up to 8x8 over a "
+             "pattern family and several ihmax. Every enumerated input and long random shape-alternating sequences (up to 40x40, "
+             "constants in between) are executed by the real routine compiled with ASan+UBSan, outputs must equal the spec's, and "
+             "H1 traces including the static work-area state after partinit are validated. Python half: Robust.tla enumerates the "
+             "outcome table (grid class x spectrum class x operation x argument class -> allowed outcomes); every case is realised "
+             "on the real library and must yield an allowed outcome, never another exception.",
+        note="Trusted: TLC, clang sanitizers as monitors, representative spectra per class (one or two per class, seeded). "
+             "Operations outside the table: crsd (undocumented), hp01 (experimental), plotting; 2-D-only operations are not "
+             "applied to 1-D spectra.",
+        technique="TLA+ bounds/termination model of the C routine + sanitizer-monitored replay; TLA+ outcome table + replay",
+        ref="§4 C20", engine="tlc"),
 }
 
 NOT_YET = "check not yet built in this round (see DESIGN.md §4 for the planned TLA+ model); not claimed"
